@@ -24,7 +24,7 @@ CONSTANTS
   WithShipped = TRUE
   Defects = {}
   Depth = 4
-  GoodWeight = 6
+  GoodWeight = 12
   Mode = "sim"
 INVARIANT Emit
 CHECK_DEADLOCK FALSE
